@@ -418,44 +418,75 @@ def r05_5(ctx):
         f = F.fn("action::Action::from_route_rule")
         r.analysed(f)
         s = Sym(f, copies=True, max_paths=200000)
-        rows = {}
-        gt_atom = None
+        is_rand = lambda x: x[0] == "call" and "rand::random" in x[1]
+        cmp_atoms = []
+
+        def draw_exceeds(a, g):
+            """truth of a comparison between the draw and the percentage, given g = (draw > percent);
+            None when it is not such a comparison or not one of the two equivalent forms"""
+            if a[0] != "bin" or a[1] not in ("Gt", "Lt", "Ge", "Le") or not mentions(a, is_rand):
+                return None
+            cmp_atoms.append(a)
+            left = mentions(a[2], is_rand)
+            op = a[1] if left else {"Gt": "Lt", "Lt": "Gt", "Ge": "Le", "Le": "Ge"}[a[1]]
+            if op == "Gt":
+                return g
+            if op == "Le":
+                return not g
+            return "other"   # `>=` / `<` move the threshold: judged by sampling:constants
+
+        def consistent(p, o, g):
+            for a, v in p.conds:
+                if a[0] == "disc" and mentions_field(a[1], "sampling_override"):
+                    if (v == "None") != (o == "none"):
+                        return False
+                elif a[0] == "field" and mentions_field(a, "sampling_override"):
+                    if o == "none" or (o == "true") != bool(v):
+                        return False
+                elif a[0] == "call" and a[1] in ("std::option::Option::unwrap_or",) and len(a[2]) == 2 and mentions_field(a[2][0], "sampling_override"):
+                    d_ = draw_exceeds(a[2][1], g)
+                    if a[2][1][0] == "un" and a[2][1][1] == "Not":
+                        d_ = draw_exceeds(a[2][1][2], g)
+                        d_ = (not d_) if isinstance(d_, bool) else d_
+                    if not isinstance(d_, bool):
+                        continue
+                    val = True if o == "true" else False if o == "false" else d_
+                    if val != bool(v):
+                        return False
+                else:
+                    d_ = draw_exceeds(a, g)
+                    if isinstance(d_, bool) and d_ != bool(v):
+                        return False
+            return True
+
+        bad = []
+        n = 0
         for p in s.paths():
             if p.end[0] not in ("ret", "loop"):
                 continue
-            has = ovr = gt = None
+            has = None
             for a, v in p.conds:
                 if a[0] == "disc" and mentions_field(a[1], "sampling", "api::source::Source"):
                     has = v == "Some"
-                elif a[0] == "disc" and mentions_field(a[1], "sampling_override"):
-                    ovr = "none" if v == "None" else "some"
-                elif mentions_field(a, "sampling_override") and a[0] == "field":
-                    ovr = "true" if v else "false"
-                elif a[0] == "bin" and a[1] in ("Gt", "Lt", "Ge", "Le") and mentions(a, lambda x: x[0] == "call" and "rand::random" in x[1]):
-                    gt = bool(v)
-                    gt_atom = a
             if has is None:
                 continue
             ret = p.end[1] if p.end[0] == "ret" else None
             skipped = ret is not None and ret[0] == "agg" and dict(ret[3]).get("0", ("",))[0] == "agg" and dict(ret[3])["0"][2] == "None"
-            rows.setdefault((has, ovr, gt), set()).add(skipped)
-        bad = []
-        n = 0
-        for (has, ovr, gt), sk in rows.items():
-            for skipped in sk:
-                if not has:
+            if not has:
+                n += 1
+                if skipped and not any(mentions_field(a, "sampling_override") for a, v in p.conds):
+                    bad.append("no sampling configured but the rule is skipped")
+                continue
+            for o in ("none", "false", "true"):
+                for g in (True, False):
+                    if not consistent(p, o, g):
+                        continue
                     n += 1
-                    if skipped:
-                        bad.append("no sampling configured but the rule is skipped")
-                    continue
-                # a path that did not look at the override / the draw decides for all their values
-                for o in ([ovr] if ovr not in (None, "some") else ["none", "false", "true"]):
-                    for g in ([gt] if gt is not None else [True, False]):
-                        n += 1
-                        want = True if o == "false" else False if o == "true" else bool(g)
-                        if skipped != want:
-                            bad.append("sampling=%s override=%s random>percent=%s -> %s (reference %s)%s" % (has, o, g, "skipped" if skipped else "applied", "skipped" if want else "applied", "" if ovr is not None else " [the override is not consulted on this path]"))
-        r.ob("sampling:table", not bad and n >= 4, f.site, "skip <=> Some(false) || (None && random > percent) on %d rows" % n if not bad else "; ".join(sorted(set(bad))[:4]))
+                    want = True if o == "false" else False if o == "true" else g
+                    if skipped != want:
+                        bad.append("override=%s draw>percent=%s -> %s (reference %s)" % (o, g, "skipped" if skipped else "applied", "skipped" if want else "applied"))
+        gt_atom = cmp_atoms[0] if cmp_atoms else None
+        r.ob("sampling:table", not bad and n >= 4, f.site, "skip <=> Some(false) || (None && draw > percent) on %d rows" % n if not bad else "; ".join(sorted(set(bad))[:4]))
         # constants: (random % 100) + 1 > clamp(sampling, 0, 100)
         ok = False
         detail = "no comparison with the random draw"
@@ -467,7 +498,7 @@ def r05_5(ctx):
             has_add = mentions(rand_side, lambda x: x[0] == "bin" and x[1].startswith("Add") and x[3] == ("const", 1))
             clamp = [x for x in walk(pct_side) if x[0] == "call" and x[1].endswith("::clamp")]
             ok_clamp = bool(clamp) and clamp[0][2][1:] == (("const", 0), ("const", 100)) and mentions_field(clamp[0][2][0], "sampling")
-            ok = op == "Gt" and has_rem and has_add and ok_clamp
+            ok = op in ("Gt", "Le") and has_rem and has_add and ok_clamp   # `draw <= p` is the negation of `draw > p`: same threshold
             detail = "draw = (random %% 100) + 1 [%s,%s], compared with `%s` against clamp(sampling, 0, 100) [%s]" % (has_rem, has_add, op, ok_clamp)
         r.ob("sampling:constants", ok, f.site, detail)
     ctx.run_rule("R05.5", "sampling decision table and constants", body, floor=2)
